@@ -17,6 +17,7 @@ import (
 	"net/http/httptest"
 	"sort"
 	"strings"
+	"sync"
 	"unicode"
 
 	"github.com/pelletier/go-toml/v2"
@@ -234,6 +235,15 @@ func main() {
 	nv := len(variants("Tok"))
 
 	dims := []int{len(tokens), nv, len(rts), len(listeners)}
+	// violations are collected per signature and the case with the smallest enumeration index is reported, so the
+	// replay of every signature is the same (simplest) case in every run, whatever the worker interleaving
+	type pending struct {
+		ord    int
+		what   string
+		replay any
+	}
+	var pmu sync.Mutex
+	pend := map[string]pending{}
 	enumx.Each(r, "query-auth", dims, workers, func(idx []int) {
 		n := <-pool
 		defer func() { pool <- n }()
@@ -271,8 +281,13 @@ func main() {
 			verdict = "allow"
 		}
 		body := w.Body.String()
+		ord := ((idx[0]*dims[1]+idx[1])*dims[2]+idx[2])*dims[3] + idx[3]
 		fail := func(class, what string) {
-			r.Violation(class, fmt.Sprintf("%s; case=%s; answer: %d %s", what, ev.J(c), w.Code, trunc(body, 300)), c)
+			pmu.Lock()
+			if p, ok := pend[class]; !ok || ord < p.ord {
+				pend[class] = pending{ord, fmt.Sprintf("%s; case=%s; answer: %d %s", what, ev.J(c), w.Code, trunc(body, 300)), c}
+			}
+			pmu.Unlock()
 		}
 		r.Distinct("observed_outcomes", fmt.Sprintf("%s|%s|%s|%d", rtv.Kind, verdict, l, w.Code))
 
@@ -363,6 +378,14 @@ func main() {
 	})
 	for i := 0; i < workers; i++ {
 		(<-pool).Close()
+	}
+	var sigs []string
+	for sig := range pend {
+		sigs = append(sigs, sig)
+	}
+	sort.Strings(sigs)
+	for _, sig := range sigs {
+		r.Violation(sig, pend[sig].what, pend[sig].replay)
 	}
 	var vn []string
 	for _, v := range variants("Tok") {
